@@ -13,14 +13,31 @@ var commonAssume = []string{
 func propSpecs() map[string]*PropSpec {
 	specs := []*PropSpec{
 		{
+			ID: "C01", Sub: "spg", Level: "model_checking",
+			Harnesses: []HSpec{
+				{Name: "H01", Int: true, Quick: P{"unwind:randomUint32n": 14, "unwind_expected": 1}, Thorough: P{"unwind:randomUint32n": 66, "unwind_expected": 1}, Reach: []string{"returned", "after-rejection"}},
+				{Name: "H01L", Int: true, Reach: []string{"lemmas"}},
+				{Name: "H01P", Reach: []string{"returned"}},
+				{Name: "H01Z", Reach: []string{"panicked"}},
+				{Name: "H01G", Reach: []string{"guard"}},
+			},
+			Bounds: map[string]string{
+				"H01":     "n: every 32-bit value >= 1 that is not a power of two (symbolic); raw words: every value (4 symbolic source bytes each); rejections: every stream with up to K consecutive rejected words, K = 12 quick / 64 thorough (one path per rejection count, the loop is unrolled; longer rejection runs are outside the executed bound)",
+				"H01L":    "n, T, q, rho, u symbolic over their full ranges (integer encoding, QF_NIA)",
+				"H01P":    "the 32 power-of-two bounds, concrete; raw word symbolic",
+				"outside": "more than K consecutive rejections (probability < 2^-K); quality of the OS source (source bytes are assumed independent and uniform)",
+			},
+			Assume: append([]string{"the threshold oracle is the maximal one (largest multiple of n not exceeding 2^32-1): a sampler that used a smaller, still unbiased threshold would be reported and has to be judged by hand"}, commonAssume...),
+		},
+		{
 			ID: "C12", Sub: "spg", Level: "model_checking",
 			Harnesses: []HSpec{
 				{Name: "H12a", Quick: P{"p": 3, "q": 3}, Thorough: P{"p": 4, "q": 5}, Reach: []string{"returned", "accepted", "rejected"}},
 				{Name: "H12b", Quick: P{"p": 4, "q": 6}, Thorough: P{"p": 7, "q": 9}, Reach: []string{"returned", "accepted", "rejected"}},
 			},
 			Bounds: map[string]string{
-				"H12a": "pw: every byte string of length 0..p (no UTF-8 assumption); index: every byte string of length 0..q; quick p=3,q=3; thorough p=4,q=5",
-				"H12b": "pw: every ASCII byte string of length 0..p; index: every byte string of length 0..q; quick p=4,q=6; thorough p=7,q=9",
+				"H12a":    "pw: every byte string of length 0..p (no UTF-8 assumption); index: every byte string of length 0..q; quick p=3,q=3; thorough p=4,q=5",
+				"H12b":    "pw: every ASCII byte string of length 0..p; index: every byte string of length 0..q; quick p=4,q=6; thorough p=7,q=9",
 				"outside": "strings and indices longer than the bounds; invalid UTF-8 together with an index longer than q(H12a) bytes; entropy is one fixed float32 (it is only copied)",
 			},
 			Assume: commonAssume,
